@@ -162,7 +162,15 @@ func (pool *TxPool) delTx(tx *types.Transaction) {
 	// delete indexes of sub transactions in box transaction
 	if tx.Type() == params.BoxTx {
 		for _, subTx := range getSubTxs(tx) {
-			delete(pool.hashIndexMap, subTx.Hash())
+			subHash := subTx.Hash()
+			// The sub tx is packaged with the box. It may also be in the pool on its own or inside another box (the box came from
+			// other miner's block). That tx must go too, same as deleting the sub tx itself. Otherwise it stays in txs without
+			// index, so it could be picked after it is packaged, or added and picked twice
+			if index, ok := pool.hashIndexMap[subHash]; ok && pool.txs[index] != nil {
+				pool.txs[index] = nil
+				txPoolTotalNumberCounter.Dec(1)
+			}
+			delete(pool.hashIndexMap, subHash)
 		}
 	}
 }
